@@ -240,3 +240,31 @@ func VerifC20_Spouses(cs int) {
 	VsAssert("inverted-spouses-iff-female-husband-and-male-wife", (vCount(keys, "InverseSpouses") == 1) == (hs == "F" && ws == "M"))
 	_ = fmt.Sprint
 }
+
+// VerifC20_EventOrder: baptism, death and burial dates (exact days, day symbolic) in every order
+// relative to each other, with a birth that is fine, missing or unparsable: one wrong-order warning
+// for each pair of events that is recorded in the wrong order, whatever else is wrong with the record.
+// cs%3: birth (valid and earliest, missing, unparsable).
+func VerifC20_EventOrder(cs int) {
+	bapt, death, buri := vNewExactDay("baptism", 1850), vNewExactDay("death", 1850, 1851), vNewExactDay("burial", 1850)
+	VsAssume(bapt.dayNo() != death.dayNo())
+	VsAssume(bapt.dayNo() != buri.dayNo())
+	VsAssume(death.dayNo() != buri.dayNo())
+	birth, wantUnparsable := "1 BIRT\n2 DATE 1 Jan 1800\n", 0
+	switch cs % 3 {
+	case 1:
+		birth = ""
+	case 2:
+		birth, wantUnparsable = "1 BIRT\n2 DATE foo bar\n", 1
+	}
+	text := "0 @I1@ INDI\n1 NAME Per /Son/\n1 SEX M\n" + birth + vEvent("BAPM", bapt.text) + vEvent("DEAT", death.text) + vEvent("BURI", buri.text)
+	doc, err := NewDocumentFromString(text)
+	VsAssume(err == nil)
+	keys := vWarningKeys(doc)
+	VsObserve(strings.Join(keys, ";"))
+	VsReach("event-order-checked")
+	VsAssert("death-before-baptism-iff-recorded-so", VsIff(vHas(keys, "IncorrectEventOrder|I1||DEAT-before-BAPM"), death.dayNo() < bapt.dayNo()))
+	VsAssert("burial-before-baptism-iff-recorded-so", VsIff(vHas(keys, "IncorrectEventOrder|I1||BURI-before-BAPM"), buri.dayNo() < bapt.dayNo()))
+	VsAssert("burial-before-death-iff-recorded-so", VsIff(vHas(keys, "IncorrectEventOrder|I1||BURI-before-DEAT"), buri.dayNo() < death.dayNo()))
+	VsAssert("an-unparsable-birth-is-reported-once-and-hides-nothing", vCount(keys, "UnparsableDate") == wantUnparsable)
+}
